@@ -626,8 +626,25 @@ func genCase(t *rapid.T) Case {
 			d.Segs = append(d.Segs, seg("w"))
 		}
 		d.Segs = append(d.Segs, mkUse("use1", false))
-		if rapid.Bool().Draw(t, "mid") {
-			d.Segs = append(d.Segs, seg("mid"))
+		// 0..2 segments of any kind between the two uses, with names of their own
+		for i, n := 0, rapid.IntRange(0, 2).Draw(t, "nmid"); i < n; i++ {
+			mn := fmt.Sprintf("m%d", i+1)
+			switch rapid.IntRange(0, 6).Draw(t, "mid") {
+			case 0:
+				d.Segs = append(d.Segs, seg("mid"))
+			case 1:
+				d.Segs = append(d.Segs, model.Seg{Elems: []model.Elem{{Bind: mn}}})
+			case 2:
+				d.Segs = append(d.Segs, model.Seg{Elems: []model.Elem{{Params: []model.Param{{Name: mn, IsRegex: true, Value: "[0-9]+", Blanks: 1}}}}})
+			case 3:
+				d.Segs = append(d.Segs, model.Seg{Elems: []model.Elem{{Lit: "v"}, {Bind: mn}}})
+			case 4:
+				d.Segs = append(d.Segs, model.Seg{Elems: []model.Elem{{Params: []model.Param{{Name: mn, Value: "**", Blanks: 1}}}}})
+			case 5:
+				d.Segs = append(d.Segs, model.Seg{Elems: []model.Elem{{Bind: "**"}}})
+			default:
+				d.Segs = append(d.Segs, model.Seg{Elems: []model.Elem{{Params: []model.Param{{Name: mn, Value: "**", Blanks: 1}, {Name: "capture", Value: "2", Blanks: 1, Lead: 1}}}}})
+			}
 		}
 		d.Segs = append(d.Segs, mkUse("use2", true))
 		switch rapid.IntRange(0, 2).Draw(t, "tail") {
